@@ -245,7 +245,22 @@ fn leak(s: String) -> &'static str {
 /// parse a chunk; returns the observation prefix and the AST
 fn parse_chunk(hexsrc: &str) -> Result<(String, Ast<'static>), String> {
     let src = leak(unhex(hexsrc));
-    match Ast::from_source(src) {
+    // the external lexer/parser runs under a watchdog: a source it never returns from is
+    // reported as `hang` (the stuck thread is abandoned)
+    let (tx, rx) = std::sync::mpsc::channel();
+    std::thread::Builder::new()
+        .stack_size(16 << 20)
+        .spawn(move || {
+            let r = std::panic::catch_unwind(|| Ast::from_source(src));
+            let _ = tx.send(r);
+        })
+        .expect("spawn");
+    let parsed = match rx.recv_timeout(std::time::Duration::from_secs(3)) {
+        Ok(Ok(r)) => r,
+        Ok(Err(e)) => return Err(format!("panic parser {}", crate::panic_msg(&e).replace(' ', "_"))),
+        Err(_) => return Err("hang parser".to_string()),
+    };
+    match parsed {
         Ok(ast) => {
             let nodes: Vec<String> = ast.clone().into_iter().map(|n| node_ser(&n)).collect();
             let mut s = format!("nodes {}", nodes.len());
